@@ -24,6 +24,9 @@ def handle (line : String) : String :=
   | "iso" :: args => Isolation.run args
   | "rx" :: args => Codec.runRx args
   | "use" :: args => Codec.runUse args
+  -- the same packets brought to the channel by the connection's reader goroutine: the same events
+  | "rxr" :: args => Codec.runRx args
+  | "user" :: args => Codec.runUse args
   | "val" :: args => Value.run args
   | "cal" :: args => Value.runCal args
   | "rd" :: args => Reader.run args
